@@ -327,7 +327,7 @@ pub fn run(opts: &Opts) -> i32 {
                     });
                 }
             }
-            Run::Panic(p) => rep.violation(Violation { signature: format!("{}: {}", role.name(), p.signature()), what: format!("panic: {} at {}", p.msg, p.location), replay: json!({"seed": opts.seed, "stream": "C06-walk", "index": i}) }),
+            Run::Panic(p, _ptail) => rep.violation(Violation { signature: format!("{}: {}", role.name(), p.signature()), what: format!("panic: {} at {}", p.msg, p.location), replay: json!({"seed": opts.seed, "stream": "C06-walk", "index": i}) }),
             Run::Livelock(_tail) => rep.violation(Violation { signature: format!("{}: live-lock", role.name()), what: "step budget exhausted".into(), replay: json!({"index": i}) }),
             Run::Watchdog => rep.inconclusive("watchdog"),
         }
@@ -384,7 +384,7 @@ pub fn run(opts: &Opts) -> i32 {
                     });
                 }
             }
-            Run::Panic(p) => rep.violation(Violation {
+            Run::Panic(p, _ptail) => rep.violation(Violation {
                 signature: format!("{}: {}", role.name(), p.signature()),
                 what: format!("panic on wrong acknowledgement: {} at {}", p.msg, p.location),
                 replay: json!({"matrix_case": descr}),
@@ -408,7 +408,7 @@ pub fn run(opts: &Opts) -> i32 {
                     rep.violation(Violation { signature: format!("{}: {}", role.name(), pool::abstract_numbers(class)), what: format!("{class} — {what}"), replay: json!({"wrap": role.name(), "sends": n_wrap}) });
                 }
             }
-            Run::Panic(p) => rep.violation(Violation { signature: format!("{}: {}", role.name(), p.signature()), what: format!("panic in long history: {} at {}", p.msg, p.location), replay: json!({"wrap": role.name()}) }),
+            Run::Panic(p, _ptail) => rep.violation(Violation { signature: format!("{}: {}", role.name(), p.signature()), what: format!("panic in long history: {} at {}", p.msg, p.location), replay: json!({"wrap": role.name()}) }),
             Run::Livelock(_tail) => rep.violation(Violation { signature: format!("{}: live-lock", role.name()), what: "step budget exhausted in long history".into(), replay: json!({"wrap": role.name()}) }),
             Run::Watchdog => rep.inconclusive("watchdog in long history"),
         }
